@@ -8,6 +8,7 @@ CONSTANTS
   InitDoc = TRUE
   FeedInit = "start"
   DeliverLast = TRUE
+  EnterGate = TRUE
   PostUnderLock = FALSE
   RegisterAtomic = FALSE
 CHECK_DEADLOCK FALSE
